@@ -1,8 +1,12 @@
 pub mod c01;
 pub mod c03;
 pub mod c04;
+pub mod c05;
 pub mod c06;
 pub mod c10;
+pub mod c11;
+pub mod c12;
+pub mod c16;
 
 use crate::runner::Ctx;
 use serde_json::Value;
@@ -12,9 +16,13 @@ pub fn run(ctx: &mut Ctx, id: &str) -> bool {
         "C01" => c01::run(ctx),
         "C03" => c03::run_c03(ctx),
         "C04" => c04::run(ctx),
+        "C05" => c05::run(ctx),
         "C06" => c06::run(ctx),
         "C09" => c03::run_c09(ctx),
         "C10" => c10::run(ctx),
+        "C11" => c11::run(ctx),
+        "C12" => c12::run(ctx),
+        "C16" => c16::run(ctx),
         _ => return false,
     }
     true
@@ -25,9 +33,13 @@ pub fn replay(ctx: &Ctx, id: &str, label: &str, case: Value) -> Result<(), Strin
         "C01" => c01::replay(ctx, label, case),
         "C03" => c03::replay(ctx, label, case, c03::Side::Acyclic),
         "C04" => c04::replay(ctx, label, case),
+        "C05" => c05::replay(ctx, label, case),
         "C06" => c06::replay(ctx, label, case),
         "C09" => c03::replay(ctx, label, case, c03::Side::Cyclic),
         "C10" => c10::replay(ctx, label, case),
+        "C11" => c11::replay(ctx, label, case),
+        "C12" => c12::replay(ctx, label, case),
+        "C16" => c16::replay(ctx, label, case),
         _ => Err(format!("unknown property {}", id)),
     }
 }
